@@ -110,6 +110,9 @@ func (c *Client) handleSearch() error {
 		if !c.dec.ExpectNumber(&num) {
 			return c.dec.Err()
 		}
+		if num == 0 {
+			return fmt.Errorf("in mailbox-data: SEARCH result contains the invalid message number 0")
+		}
 		if cmd != nil {
 			switch all := cmd.data.All.(type) {
 			case imap.SeqSet:
